@@ -237,6 +237,9 @@ thread_local! {
 
 /// Replace the panic hook by one that only records the location (file:line) in a thread local.
 pub fn quiet_panics() {
+    if std::env::var("RVX_LOUD_PANICS").is_ok() {
+        return;
+    }
     std::panic::set_hook(Box::new(|info| {
         let loc = info.location().map(|l| format!("{}:{}", l.file(), l.line())).unwrap_or_default();
         LAST_PANIC_LOC.with(|c| *c.borrow_mut() = loc);
